@@ -1447,6 +1447,10 @@ def check_soc(cfg, seed=0, max_regs=None, max_words=None):
             ks |= {4 * k for k in (1, 2, 3, 5)} | {8 * k for k in (1, 3)}
             while len(ks) < budget:
                 ks.add(rng.randrange(n32))
+            ks = {k for k in ks if 0 <= k < n32}
+            keep = {1, 4, n32 // 4 + 1, n32 // 2, 3 * n32 // 4 - 1, n32 - 1} & ks
+            if len(ks) > budget:
+                ks = keep | set(rng.sample(sorted(ks - keep), max(0, budget - len(keep))))
         ks = sorted(k for k in ks if 0 <= k < n32)
         bad = [0]
 
